@@ -13,6 +13,7 @@ pub mod panics;
 pub mod props;
 #[cfg(feature = "quinn")]
 pub mod quinnrig;
+pub mod racerig;
 pub mod refimpl;
 pub mod report;
 pub mod sim;
@@ -194,6 +195,17 @@ fn cmd_run(args: &[String]) -> i32 {
     let gens: Vec<Gen> = (p.gens)(tier)
         .into_iter()
         .filter(|g| only.as_deref().map(|o| o == g.name).unwrap_or(true))
+        .map(|mut g| {
+            // the lite tier (Miri / sanitizer builds) runs a handful of cases of every generator
+            if tier == Tier::Lite {
+                let cap = if cfg!(miri) { 2 } else { 8 };
+                if g.count > cap {
+                    g.count = cap;
+                    g.exhaustive = false;
+                }
+            }
+            g
+        })
         .collect();
 
     // work queue: (gen idx, next index)
@@ -268,7 +280,7 @@ fn cmd_run(args: &[String]) -> i32 {
         rep.notes
             .push(format!("stopped by --max-secs {} before all cases ran", max_secs));
     }
-    if only.is_none() {
+    if only.is_none() && tier != Tier::Lite {
         (p.finish)(tier, &mut rep);
     }
     if rep.evaluations == 0 {
